@@ -196,7 +196,9 @@ class SimCluster:
         job.stdout_path = d.get("--output") or d.get("-o")
         job.stderr_path = d.get("--error") or d.get("-e")
         out = f"{job.id}\n" if parsable else f"Submitted batch job {job.id}\n"
-        return 0, out, ""
+        # an accepted submission may still carry a note on stderr (no "error:" in it)
+        note = "sbatch: Warning: can't run 1 processes on 2 nodes, setting nnodes to 1\n" if int(job.id) % 4 in (1, 2) else ""
+        return 0, out, note
 
     def _cmd_squeue(self, args, stdin):
         fmt = None
